@@ -34,7 +34,7 @@ COMPONENTS = {
     'stub': ['joblib.Parallel (SimParallel)', 'user objective/constraints (harness world)', 'time.time', 'uuid1'],
 }
 PROBES_EXPECTED = ['maximised_objective', 'constraint_pairs', 'reeval_same_batch', 'mixed_batch', 'scalar_points',
-                   'sweep_parallel', 'parallel_batches', 'store_attached', 'foreign_lock']
+                   'sweep_parallel', 'parallel_batches', 'store_attached', 'foreign_lock', 'reloaded_session']
 
 
 class Shadow:
@@ -43,6 +43,7 @@ class Shadow:
         self.w = w
         self.seen_calls = 0
         self.calls_of = {}      # id(obj) -> count
+        self.loaded = set()     # id(obj) of evaluated designs read back from a store in a later session
         self.sat = []           # markers of designs satisfying all constraints
         self.vio = []
 
@@ -57,10 +58,13 @@ class Shadow:
         ctx, w = self.ctx, self.w
         ctx.check()
         n = self.calls_of.get(id(ind), 0)
-        if n != 1:
-            ctx.violation('call_count', site, '%s (id %d): objective called %d times since creation' % (what, ind.id, n))
+        was_loaded = id(ind) in self.loaded
+        if n != (0 if was_loaded else 1):
+            ctx.violation('recall_on_evaluated' if was_loaded else 'call_count', site,
+                          '%s (id %d): objective called %d times since %s' % (what, ind.id, n, 'it was read back evaluated '
+                          'from the store' if was_loaded else 'creation'))
             return
-        if ind.state != ind.State.EVALUATED:
+        if ind.state != ind.State.EVALUATED and not (was_loaded and ind.state == 'evaluated'):
             ctx.violation('state', site, '%s (id %d): state %s after evaluation' % (what, ind.id, ind.state))
             return
         exp = w.f(ind.vector)
@@ -134,9 +138,20 @@ def _batch(D):
     sh = Shadow(ctx, w)
     nops = 1 + D.dec('cfg', 'nops', 6)
     known = []
+    held = []       # keeps read-back designs alive: the shadow model is keyed by object identity
     kinds = []
     site = 'Algorithm.evaluate'
     for o in range(nops):
+        if db and known and D.flag('work', ('reload', o), 0.3):
+            # a later session continues the study: a new Problem on the same file (mode "write" loads the stored designs);
+            # designs read back evaluated are evaluated designs - batches that contain them must not recompute them
+            loaded = W.reopen_session(w, db)
+            alg = W.dummy_algorithm(w, workers=workers)
+            sh.loaded.update(id(i) for i in loaded)
+            held.append(loaded)
+            known = [loaded] if loaded else []
+            ctx.probe('reloaded_session')
+            sim.ev('reload', o, len(loaded))
         kind = ('fresh', 'mixed', 'again', 'scalar')[D.weighted('work', ('op', o), (3, 2, 2, 1))]
         if kind in ('mixed', 'again') and not known:
             kind = 'fresh'
@@ -179,7 +194,7 @@ def _batch(D):
             seams.release_foreign_lock(sim)       # the foreign holder never outlives the operation it disturbed
         new = sh.absorb()
         for i, ind in enumerate(batch):
-            was_evaluated = before[id(ind)] > 0
+            was_evaluated = before[id(ind)] > 0 or id(ind) in sh.loaded
             if was_evaluated and sh.calls_of.get(id(ind), 0) != before[id(ind)]:
                 ctx.violation('recall_on_evaluated', site, 'operation %d (%s): already evaluated design id %d was sent '
                               'to the objective again' % (o, kind, ind.id))
